@@ -104,6 +104,14 @@ def path(ctx, cfg):
         arity = sum(spec["sizes"][k] for k in spec["indices"][j])
         bad = [len(c["args"]) for c in r.calls if c["j"] == j and len(c["args"]) != arity]
         ctx.require(not bad, "call-arity", f"{desc}: motif type {j} received {bad} stubs instead of {arity}")
+    # (b') what a callback was handed stays what it was handed: a callback may keep its argument (e.g. return it as a hyper-edge), so the
+    # generator must neither change that object afterwards nor hand the same object to another call
+    kept = [c for c in r.calls if isinstance(c.get("obj"), list)]
+    same = all(len(c["obj"]) == len(c["args"]) and all(a is b for a, b in zip(c["obj"], c["args"])) for c in kept)
+    distinct = len({id(c["obj"]) for c in kept}) == len(kept)
+    ctx.require(same and distinct, "call-arity",
+                lambda: f"{desc}: a list handed to a build callback was modified after the call or shared between calls: "
+                        f"{[(c['args'], list(c['obj'])) for c in kept][:4]}", sig="callback-argument-not-stable")
     # (c) every vertex occupies exactly jds[v][k] slots of column k, for every permutation; (d) slots are vertices 0..N-1
     for k in range(len(spec["sizes"])):
         slots = gc.column_slots(r, k)
